@@ -65,6 +65,9 @@ CONSTANTS MaxDepth,      \* longest chain of path-symbol definitions
                          \* 4: no cd, but a MENTION of the last path symbol - a reference in a position that puts no
                          \* restriction on it (an argument of a program) - before the use: what an argument accepts
                          \* is decided for every reference, not once per symbol
+                         \* 5: no cd; the instruction of the use refers to the last path symbol a SECOND time, in an
+                         \* argument of its own that puts no restriction on it (the contents of the file it creates):
+                         \* what the destination accepts is decided by the reference in the destination
           CdForms,       \* forms of the context `cd`: "tmp" (cd -rel-tmp c), "sub" (cd c)
           MayReject,     \* TRUE: where the property leaves a choice (accept or reject) both are explored as
                          \* behaviours; FALSE (random simulation): only "accept" is, the other is MayRejectOutcome
@@ -200,7 +203,8 @@ Init ==
   /\ cdpos \in CdPos /\ (cdpos = 2 => depth >= 1)
   /\ (cdpos = 3) => (role \notin {"cd", "actprog"} /\ (phase \in DeepPhases \/ SinglePhase))
   /\ (cdpos = 4) => (depth >= 1 /\ role # "actprog" /\ (phase \in DeepPhases \/ SinglePhase))
-  /\ cdform \in (IF cdpos \in {0, 4} THEN {"-"} ELSE CdForms)
+  /\ (cdpos = 5) => (depth >= 1 /\ role = "file" /\ (phase \in DeepPhases \/ SinglePhase))
+  /\ cdform \in (IF cdpos \in {0, 4, 5} THEN {"-"} ELSE CdForms)
   /\ prog = <<>> /\ stage = "build" /\ pc = 1 /\ symtab = <<>>
   /\ cwd = [root |-> "act", comps |-> <<>>]           \* "act directory: the current directory when [setup] begins"
   /\ outcome = "-" /\ uses = <<>> /\ created = {} /\ nexec = 0
